@@ -194,3 +194,29 @@ for nlive in (16, 20):
     acc = "v0"
     for i in range(1, nlive): acc = f"({acc} + v{i})"
     w(f"spill_ops_{nlive}", f"def main(n: i64): i64 {{\n{lets}{body}  println_i64({acc});\n  0\n}}\n")
+
+# ---- operands that are BOTH in spill slots: tail position of a definition with 10 parameters (context = parameters in order)
+params = ", ".join(f"v{i}: i64" for i in range(10))
+defs = ""; calls = ""
+k = 0
+for (a, b) in [(8, 9), (9, 8), (2, 9), (9, 2), (9, 9)]:
+    for c in CMPS:
+        defs += f"def c{k}({params}): i64 {{ if v{a} {c} v{b} {{ v0 }} else {{ v1 }} }}\n"
+        calls += f"  println_i64(c{k}(1, 2, n, 4, 5, 6, 7, 8, n + 1, 10 - n));\n"
+        k += 1
+    for op in OPS:
+        defs += f"def o{k}({params}): i64 {{ (v{a} {op} v{b}) + v0 }}\n"
+        calls += f"  println_i64(o{k}(1, 2, n, 4, 5, 6, 7, 8, n + 1, 10 - n));\n"
+        k += 1
+w("spill_both_operands", defs + f"def main(n: i64): i64 {{\n{calls}  0\n}}\n")
+w("args5", """def main(a: i64, b: i64, c: i64, d: i64, e: i64): i64 {
+  println_i64(a); println_i64(b); println_i64(c); println_i64(d); println_i64(e);
+  println_i64(((a - b) * c) + (d - e));
+  ((a + b) + c) + (d + e)
+}
+""")
+w("args4", """def main(a: i64, b: i64, c: i64, d: i64): i64 {
+  println_i64(a); println_i64(b); println_i64(c); println_i64(d);
+  ((a - b) * c) - d
+}
+""")
